@@ -271,6 +271,11 @@ class ZMQEventLoop(EventLoop):
                 self._entering_idle()
                 self._did_something = False
             elif state == "alarm":
+                # poll() cuts its timeout down to whole milliseconds and does not wait at all
+                # while nothing is registered: never run an alarm before it is due
+                early = self._alarms[0][0] - time.time()
+                if early > 0:
+                    time.sleep(early)
                 _due, _tie_break, callback = heapq.heappop(self._alarms)
                 callback()
                 self._did_something = True
